@@ -344,15 +344,12 @@ def check_view(F, view, o, X, is_segment):
                 continue
             ok = [a for a in alts if list(a[1]) == [tuple(x) for x in g['ents']]]
             if not ok:
-                a0 = alts[0]
-                if len(alts) > 1 and any(len(g['ents']) == len(a[1]) for a in alts) is False:
-                    kind = 'mixed-duplicate-group'
-                elif len(g['ents']) != len(a0[1]):
+                if len(alts) > 1:
+                    kind = 'duplicated-group|neither-first-nor-last-occurrence'
+                elif len(g['ents']) != len(alts[0][1]):
                     kind = 'count'
                 else:
                     kind = 'entries'
-                if len(alts) > 1:
-                    kind += '|duplicated-group'
                 F.add('relocs|%s|%s' % (k, kind), view, 'expected %s got %r' % (' or '.join(repr(a[1][:6]) for a in alts), g['ents'][:6]))
                 continue
             a = ok[0]
@@ -652,6 +649,9 @@ def run_img(ctx, case):
         ctx.count('tags.duplicated-reloc-group')
     for k in X['relocs']:
         ctx.count('reloc.%s' % k)
+    for t in case['tags']:
+        if isinstance(t[1], list) and t[1][0] == 'edge':
+            ctx.count('pointer-to-%s-byte-of-load' % t[1][2])
     if case.get('decoy'):
         ctx.count('decoy-dynstr')
     if case.get('xsegs'):
@@ -1023,6 +1023,10 @@ def build_case(ch, tier, force=None):
             tags.append([ch.choice(free), ['bss', ch.int(0, 3), ch.choice([0, 1, 8, 31])]])
         else:
             bss = False
+    if f.get('edge') or ch.bool(0.5):
+        free = [t for t in (3, 12, 13, 25, 26) if t not in [x[0] for x in tags]]
+        for t in free[:ch.int(1, 2)]:
+            tags.append([t, ['edge', ch.int(0, 3), ch.choice(['first', 'last'])]])
     tags = ch.perm(tags)
     if case['rel2'] is not None:
         ta, ts = (7, 8) if dupkind == 'rela' else (17, 18)
@@ -1153,7 +1157,7 @@ def sweep(tier):
                         ch = RndChooser(9000 + k)
                         cases.append(build_case(ch, tier, {'cls': cls, 'le': le, 'flavor': flavor, 'hash': hk, 'nload': nload, 'strings': True,
                                                            'gnu_form': 'std', 'relocs': ('rel', 'rela', 'jmprel', 'relr')[:(nload + hi) % 5],
-                                                           'nsyms': 2 + (k % 7), 'after': nload % 2 == 0, 'decoy': k % 2 == 0,
+                                                           'nsyms': 2 + (k % 7), 'after': nload % 2 == 0, 'decoy': k % 2 == 0, 'edge': True,
                                                            'dup_group': (nload + hi) % 5 in (2, 3) and nload == 3}))
             # the GNU ld "empty" table: with DT_HASH, alone with the GNU ld layout, alone without
             for j, fo in enumerate(({'hash': 'both'}, {'hash': 'gnu', 'next_exact': True}, {'hash': 'gnu'})):
@@ -1170,7 +1174,7 @@ def floors(ctx):
     need = ['cell.32le', 'cell.32be', 'cell.64le', 'cell.64be', 'hash.sysv', 'hash.gnu', 'hash.both', 'hash.none', 'nload.1', 'nload.2', 'nload.3',
             'nload.4', 'flavor.generic', 'flavor.mips', 'flavor.aarch64', 'flavor.solaris', 'str.needed', 'str.soname', 'str.rpath', 'str.runpath',
             'str.sunw_filter', 'tags.after-null', 'tags.duplicates', 'tags.duplicated-reloc-group', 'reloc.REL', 'reloc.RELA', 'reloc.JMPREL',
-            'reloc.RELR', 'decoy-dynstr', 'decoy-segments', 'pointer-into-zero-filled', 'count_rule.exact', 'count_rule.none',
+            'reloc.RELR', 'decoy-dynstr', 'decoy-segments', 'pointer-into-zero-filled', 'pointer-to-first-byte-of-load', 'pointer-to-last-byte-of-load', 'count_rule.exact', 'count_rule.none',
             'count_rule.ld-empty|DT_HASH-present', 'count_rule.ld-empty|gnu-only|next-pointer-exact', 'corpus.compared',
             'corpus.excluded.precondition']
     out = ['no case of class ' + k for k in need if c[k] == 0]
